@@ -43,12 +43,13 @@ func parseItag(s []byte) (uint32, error) {
 }
 
 func (v otrV3) parseFragmentPrefix(c *Conversation, data []byte) (rest []byte, ignore bool, ok bool) {
-	if len(data) < 23 {
+	// "?OTR|%x|%x," - the instance tags may, but need not, have leading zeroes
+	headerLen := bytes.Index(data, fragmentSeparator) + 1
+	if headerLen == 0 {
 		return data, false, false
 	}
 
-	header := data[:23]
-	headerPart := bytes.Split(header, fragmentSeparator)[0]
+	headerPart := data[:headerLen-1]
 	itagParts := bytes.Split(headerPart, fragmentItagsSeparator)
 
 	if len(itagParts) < 3 {
@@ -74,7 +75,7 @@ func (v otrV3) parseFragmentPrefix(c *Conversation, data []byte) (rest []byte, i
 		}
 	}
 
-	return data[23:], false, true
+	return data[headerLen:], false, true
 }
 
 func (v otrV3) fragmentPrefix(n, total int, itags uint32, itagr uint32) []byte {
